@@ -2,7 +2,7 @@
    Property theorems only; proofs in proofs/Graph*.v (see design.d/C09.md). *)
 From Coq Require Import List NArith Bool Relations.
 From SV Require Import lib.Bytes lib.Closure model.Graph model.GraphDump model.GraphInv model.GraphTree model.GraphTreeInv
-  gen.GenGraph proofs.GraphNodes proofs.GraphProofs proofs.GraphTables proofs.GraphTrans proofs.GraphTreeSim proofs.GraphTreeOps proofs.GraphStepTrans.
+  gen.GenGraph proofs.GraphNodes proofs.GraphProofs proofs.GraphTables proofs.GraphTrans proofs.GraphTreeSim proofs.GraphTreeOps proofs.GraphStepTrans proofs.GraphFileTrans.
 Import ListNotations.
 Open Scope N_scope.
 
@@ -399,6 +399,43 @@ Example C09_step_move_excludes :
   step_move_b (OpBase (OpDispatch [65])) [66] SPending SRunning = false /\
   step_move_b (OpBase OpResetInterrupted) [65] SSucceeded SFailed = false /\
   step_move_b (OpRegisterTree root_key [100; 47]) [65] SFailed SSucceeded = false.
+Proof. vm_compute. repeat split; reflexivity. Qed.
+
+(* transitions_documented, file rows, ALL 15 operations (any arguments, any state, no invariant, no
+   protocol): a file row that exists before and after the transaction moved along file_move_b o =
+   the closure of the documented single steps of that kind of transaction:
+   - an operation that declares no file: a row of _HASH_TRANSITIONS, BUILT -> OUTDATED, OUTDATED -> BUILT
+     (file_step, as in C09_file_transitions_documented_partial);
+   - a declaring request (declare_static, define_step, amend_step, register_static_tree):
+     File.initialize_row with a requestable state (UNDECLARED = supplied as an input, UNCONFIRMED, PLANNED,
+     VOLATILE) and its documented keep rules, or BUILT -> OUTDATED (decl_step).  As a table: a declaring
+     request never makes an existing row CONFIRMED, MISSING or BUILT, and OUTDATED only from BUILT.
+   A declaring request deletes no file row, every other operation creates none. *)
+Theorem C09_file_transitions_documented :
+  forall o s l r r', find_file l s = Some r -> find_file l (apply_op_t s o) = Some r' ->
+    file_move_b o (fstt r) (fstt r') = true.
+Proof. exact file_transitions_documented_all. Qed.
+
+Theorem C09_file_transitions_documented_closure :
+  forall o s l r r', find_file l s = Some r -> find_file l (apply_op_t s o) = Some r' ->
+    if declares_files_t o then clos_refl_trans fstate decl_step (fstt r) (fstt r')
+    else clos_refl_trans fstate file_step (fstt r) (fstt r').
+Proof. exact file_transitions_documented_all_closure. Qed.
+
+Theorem C09_file_rows_persist_or_not_created :
+  forall o s l,
+    (declares_files_t o = true -> find_file l s <> None -> find_file l (apply_op_t s o) <> None) /\
+    (declares_files_t o = false -> find_file l (apply_op_t s o) <> None -> find_file l s <> None).
+Proof. exact file_rows_persist_or_not_created. Qed.
+
+Example C09_file_move_excludes :
+  file_move_b (OpBase (OpDefineStep root_key [65] [] [] [] [] NDefault)) FUnconfirmed FConfirmed = false /\
+  file_move_b (OpBase (OpAmendStep [65] [] [] [] [])) FPlanned FBuilt = false /\
+  file_move_b (OpRegisterTree root_key [100; 47]) FConfirmed FMissing = false /\
+  file_move_b (OpBase (OpDeclareStatic root_key [])) FUnconfirmed FOutdated = false /\
+  file_move_b (OpBase (OpUpdateHashes CExternal [])) FConfirmed FPlanned = false /\
+  file_move_b (OpBase OpDeleteDetached) FBuilt FUndeclared = false /\
+  file_move_b (OpBase (OpDefineStep root_key [65] [] [] [] [] NDefault)) FBuilt FOutdated = true.
 Proof. vm_compute. repeat split; reflexivity. Qed.
 
 (* ------------------------------------------------------------------------------------------ *)
